@@ -5,7 +5,7 @@ from props import netprops
 
 LEVEL = "proof"
 RULE = ("matrix over valid SPEC-generated Valve servers: all 9 toggle pairs x section outcome {valid, silent, malformed, "
-        "challenge-then-silent, compressed split that does not decompress (a failure of a kind other than the packet kinds), a well-formed reply announcing more entries than it holds} for players and for rules x app-id relation (main / dedicated / other id / no expectation; "
+        "challenge-then-silent, compressed split that does not decompress (a failure of a kind other than the packet kinds), a well-formed reply announcing more entries than it holds, a split reply one of whose fragments belongs to another response} for players and for rules x app-id relation (main / dedicated / other id / no expectation; "
         "from the base case's engine and server id) x check on/off. The oracle derives the expected response from the "
         "fault-free one: skipped or failed-Try sections absent, rest intact; failed Enforce = that failure; BadGame exactly "
         "on a foreign id with the check on; request kinds seen on the wire must match. The same decision through the generic "
@@ -14,7 +14,21 @@ RULE = ("matrix over valid SPEC-generated Valve servers: all 9 toggle pairs x se
 ASSUMPTIONS = ["timeouts are scripted deliveries (silence)"]
 TRUSTED = ["hand-written Lean model of maybe_gather!/get_response, checked against the code on every run"]
 
-OUTCOMES = ["valid", "silent", "malformed", "chalsilent", "undecompressable", "shortcount"]
+OUTCOMES = ["valid", "silent", "malformed", "chalsilent", "undecompressable", "shortcount", "foreignsplit"]
+
+
+def _source_split(body, sid, foreign_at=None):
+    """the reply as an uncompressed Source split of 3-5 fragments; fragment `foreign_at` carries another response's id"""
+    n = 3 + len(body) % 3
+    size = max(1, -(-len(body) // n))
+    chunks = [body[i:i + size] for i in range(0, len(body), size)] or [b""]
+    while len(chunks) < 3:
+        chunks.append(b"")
+    frags = []
+    for i, ch in enumerate(chunks):
+        fid = sid + 7 if i == foreign_at else sid
+        frags.append(b"\xfe\xff\xff\xff" + fid.to_bytes(4, "little") + bytes([len(chunks), i]) + (1248).to_bytes(2, "little") + ch)
+    return frags
 # a Source split reply of one fragment, marked compressed (bit 31 of the id), whose stream no bzip2 decoder accepts:
 # the section fails with the decompression error kind, not with a packet error kind
 UNDECOMPRESSABLE = (bytes.fromhex("feffffff") + (0x80000007).to_bytes(4, "little") + bytes([1, 0]) + (1248).to_bytes(2, "little")
@@ -48,7 +62,13 @@ def build(valid, tp, tr, op, orr, check, new_id):
             d = groups[k][-1]
             d2 = d[:5] + bytes([min(255, d[5] + 1 + (len(newds) % 3))]) + d[6:] if d[5] < 255 else b"\xff\xff"
             newds += groups[k][:-1] + [d2]
-        elif o in ("malformed", "shortcount") or (o == "undecompressable" and not compressible(c)):
+        elif o == "foreignsplit" and compressible(c) and groups[k] and groups[k][-1] is not None and groups[k][-1][:4] == b"\xff\xff\xff\xff":
+            # the section's reply as a split response one of whose fragments — not the last to arrive — belongs to ANOTHER response:
+            # the section is malformed; ALL its fragments have arrived before the next request goes out, so the next section
+            # must be unaffected
+            frags = _source_split(groups[k][-1], 300 + len(newds), foreign_at=1)
+            newds += groups[k][:-1] + frags
+        elif o in ("malformed", "shortcount", "foreignsplit") or (o == "undecompressable" and not compressible(c)):
             newds.append(b"\xff\xff")
         elif o == "undecompressable":
             newds.append(UNDECOMPRESSABLE)
